@@ -49,14 +49,22 @@ class World:
             t.file(pre + b".abstract", "Header of %s" % (d.decode() or "root"))
         t.materialize(self.root)
         self.lifetime = lifetime
-        ov = {("handlers.dir.DirHandler", "cachetime"): str(lifetime)}
+        # what the site says about abstracts (whether and where protocols show them): part of how a protocol renders
+        # an entry, no part of the entry that is cached
+        self.abstracts = [("on", "always"), ("on", "always"), ("off", "never"), ("on", "unsupported"), ("off", "always"),
+                          ("on", "never")][idx % 6]
+        chk.count("histories_with_abstract_headers=%s,entries=%s" % self.abstracts)
+        self.site = None
         self.handlers = handlers
-        self.site = driver.Site(self.root, handlers=handlers, overrides=ov)
-        self.twinsite = driver.Site(self.twin, handlers=handlers,
-                                    overrides={("handlers.dir.DirHandler", "cachetime"): "0"})
+        self.site = driver.Site(self.root, handlers=handlers, overrides=self.overrides(lifetime))
+        self.twinsite = driver.Site(self.twin, handlers=handlers, overrides=self.overrides(0))
         self.model = {d: DirModel() for d in self.dirs}
         self.counter = 0
         self.trace: typing.List[str] = []
+
+    def overrides(self, lifetime: int) -> dict:
+        return {("handlers.dir.DirHandler", "cachetime"): str(lifetime), ("pygopherd", "abstract_headers"): self.abstracts[0],
+                ("pygopherd", "abstract_entries"): self.abstracts[1]}
 
     def close(self):
         self.site.close()
@@ -137,8 +145,7 @@ class World:
             return
         self.lifetime = self.rng.choice(cands)
         self.site.close()
-        self.site = driver.Site(self.root, handlers=self.handlers,
-                                overrides={("handlers.dir.DirHandler", "cachetime"): str(self.lifetime)})
+        self.site = driver.Site(self.root, handlers=self.handlers, overrides=self.overrides(self.lifetime))
         self.trace.append("restart with lifetime %d" % self.lifetime)
         self.chk.count("restarts_with_another_lifetime")
 
@@ -290,13 +297,23 @@ class World:
             m.snapshot, m.age, m.written_by = current, 0, view
         return True
 
-    def op_request(self) -> bool:
+    # other spellings of a directory's selector (runs of separators and dots behind it): answered as the directory or
+    # refused -- and a refused request leaves the cache as it was
+    ODD_SUFFIXES = [b"/", b"/.", b"//", b"/./", b"/./.", b"/.//", b"//.", b"/././", b"/. ", b"/.\\"]
+
+    def op_request(self, odd: bool = False) -> bool:
         chk = self.chk
         d = self.rng.choice(self.dirs)
         view = self.rng.choice(VIEWS)
         m = self.model[d]
         cp = self.cachepath(d)
         sel = b"/" + d if d else b"/"
+        suffix = b""
+        if odd:
+            suffix = self.rng.choice(self.ODD_SUFFIXES)
+            sel = sel.rstrip(b"/") + suffix
+            chk.count("requests_with_odd_directory_spelling")
+        cache_before = open(cp, "rb").read() if os.path.exists(cp) else None
         expect_hit = self.lifetime > 0 and m.snapshot is not None and m.age < self.lifetime
         before = os.stat(cp) if os.path.exists(cp) else None
         if before is not None and m.snapshot is None and self.lifetime > 0:
@@ -311,9 +328,17 @@ class World:
         sample = {"lifetime": self.lifetime, "view": view, "dir": sel, "expected": "hit" if expect_hit else "miss",
                   "age": m.age, "written_by": m.written_by, "history": self.trace[-12:], "got": got[:400], "log": r.log[:2],
                   "escaped": r.escaped[:1]}
-        if r.escaped or [e for e in r.exceptions()]:
+        if r.escaped or [e for e in r.exceptions() if not (odd and e == "FileNotFound")]:
             chk.witness("C10/request-failed", sample)
             return False
+        if odd and validate.validate(r, req).klass == "error":
+            cache_after = open(cp, "rb").read() if os.path.exists(cp) else None
+            if cache_after != cache_before:
+                chk.witness("C10/refused-request-rewrote-the-cache", dict(sample, cache_was=None if cache_before is None else len(cache_before),
+                                                                          cache_is=None if cache_after is None else len(cache_after)))
+                return False
+            chk.count("odd_spellings_refused_cache_untouched")
+            return True
         if expect_hit:
             if not m.renamed and got != m.snapshot[view]:
                 fresh = self.render_current(d)
@@ -434,8 +459,11 @@ def run_history(chk: Check, sc: Scratch, idx: int) -> None:
                     return
             elif r < 0.21:
                 w.op_reconfigure()
-            elif r < 0.5:
+            elif r < 0.45:
                 if not w.op_request():
+                    return
+            elif r < 0.5:
+                if not w.op_request(odd=True):
                     return
             elif r < 0.76:
                 w.op_mutate()
